@@ -232,5 +232,6 @@ pub fn def() -> PropDef {
         assumptions: &["each case runs in its own thread, so the thread-local registry starts empty"],
         spaces: vec![Space { name: "calls", decode, plan: |t| Plan::Random(t.n(100_000, 2_000_000)) }],
         differential: false,
+        floors: &[("searches", 1.0), ("buffer_checks", 8.0)],
     }
 }
